@@ -91,6 +91,21 @@ def evaluate(case, out):
     if got == want:
         cs = [cvrs[i] for i in got]
         ms = [mvrs[i] for i in got]
+        if case["seed"] % 3 == 0 and got:
+            # the CVRs of the selected cards as the vendor-specific lookup hands them back (identifiers are tabulator-batch-card)
+            try:
+                import numpy as np
+                import pandas as pd
+                from shangrla.formats.Dominion import Dominion
+
+                batches = sorted({tuple(c.id.split("-")[:2]) for c in cvrs})
+                man = pd.DataFrame([{"Tray #": 1, "Tabulator Number": tb, "Batch Number": b, "Total Ballots": 7, "VBMCart.Cart number": 3}
+                                    for tb, b in batches])
+                _, _, cs, _ = Dominion.sample_from_cvrs(cvrs, man, np.array(got))
+                out.cls("sampled-cvrs-through-the-vendor-lookup")
+            except Exception as e:  # noqa
+                out.lib_exception("sample_from_cvrs", e)
+                return
         for c in cids:
             if sizes[c] == 0:
                 continue
